@@ -3,6 +3,7 @@ package store
 import (
 	"bufio"
 	"fmt"
+	"math"
 	"os"
 	"path/filepath"
 	"strings"
@@ -48,6 +49,8 @@ func (r *Reflog) load(rootGoitPath string, head *Head, refs *Refs) error {
 	defer f.Close()
 
 	scanner := bufio.NewScanner(f)
+	// a record carries the first line of a commit message, which may exceed the default 64 KiB token limit
+	scanner.Buffer(nil, math.MaxInt)
 	for scanner.Scan() {
 		record := &LogRecord{
 			references: make([]string, 0),
